@@ -12,6 +12,10 @@ def goKeywords : List String :=
   ["break", "case", "chan", "const", "continue", "default", "defer", "else", "fallthrough", "for", "func", "go", "goto",
    "if", "import", "interface", "map", "package", "range", "return", "select", "struct", "switch", "type", "var"]
 
+/-- the same keywords as byte strings (what the models test) -/
+def goKeywordsB : List Bytes :=
+  [[98,114,101,97,107], [99,97,115,101], [99,104,97,110], [99,111,110,115,116], [99,111,110,116,105,110,117,101], [100,101,102,97,117,108,116], [100,101,102,101,114], [101,108,115,101], [102,97,108,108,116,104,114,111,117,103,104], [102,111,114], [102,117,110,99], [103,111], [103,111,116,111], [105,102], [105,109,112,111,114,116], [105,110,116,101,114,102,97,99,101], [109,97,112], [112,97,99,107,97,103,101], [114,97,110,103,101], [114,101,116,117,114,110], [115,101,108,101,99,116], [115,116,114,117,99,116], [115,119,105,116,99,104], [116,121,112,101], [118,97,114]]
+
 def isAlnum (c : Nat) : Bool := (48 ≤ c && c ≤ 57) || (65 ≤ c && c ≤ 90) || (97 ≤ c && c ≤ 122)
 def isLetterB (c : Nat) : Bool := (65 ≤ c && c ≤ 90) || (97 ≤ c && c ≤ 122)
 
@@ -42,7 +46,7 @@ def optionPackage (input opt : Bytes) : Bytes × Bytes :=   -- (path, pkg)
 
 def packageName (input opt : Bytes) : Bytes :=
   let pkg := (optionPackage input opt).2
-  let pkg := if goKeywords.contains (str pkg) then underscore :: pkg else pkg
+  let pkg := if goKeywordsB.contains pkg then underscore :: pkg else pkg
   match pkg with
   | c :: _ => if isDigitB c then underscore :: pkg else pkg
   | [] => pkg
@@ -84,7 +88,7 @@ namespace Protogen
 def goSanitized (s : Bytes) : Bytes :=
   let s := s.map fun c => if isAlnum c then c else underscore
   let firstIsLetter := match s with | c :: _ => isLetterB c | [] => false
-  if goKeywords.contains (str s) || !firstIsLetter then underscore :: s else s
+  if goKeywordsB.contains s || !firstIsLetter then underscore :: s else s
 
 /-- `goPackageOption`: (package name, import path; empty = none) -/
 def goPackageOption (opt : Bytes) : Bytes × Bytes :=
